@@ -99,6 +99,7 @@ type PScn struct {
 	Lib     bool               `json:"lib,omitempty"`    // add a module-local package <mod>/lib (type Thing) for references
 	Zoo     int                `json:"zoo,omitempty"`    // a second module `zoo` (dot-less path, own go directive ZooGo) in directory zoo, required and replaced by the main module, with packages zoo/p (type P, tagged for rec) and zoo/dep: 1 = zoo/p is an entrypoint beside the others, 2 = zoo/p is the only entrypoint
 	ZooGo   string             `json:"zoo_go,omitempty"`
+	Work    bool               `json:"work,omitempty"`    // with Zoo: the two modules are joined by a go.work file at the top (use . and ./zoo) instead of a require + replace pair; Zoo 3 = zoo is there and imported (ZooFns) but no entrypoint
 	GenRev  bool               `json:"gen_rev,omitempty"` // the generators are handed to Execute in reverse order (a set has no order: GetRegisteredGenerators returns them in map order)
 	Peek    bool               `json:"peek,omitempty"`    // every GenerateType call first asks the Context for the doc of every type of every package the processed package imports (as a generator does for the types a type refers to) and renders nothing from it
 	ZooFns  bool               `json:"zoo_fns,omitempty"` // zoo/p declares functions A and B with error results (A returns B's among others) and the first package of the main module a function Q whose result comes from zoo/p's B and then from its A: what a generator renders from ResultsOf about zoo/p's A is a fact about zoo/p, whoever asked about Q before
@@ -250,7 +251,11 @@ func (s *PScn) materialise(dir string) error {
 		if zg == "" {
 			zg = gv
 		}
-		gomod += "\nrequire zoo v0.0.0\n\nreplace zoo => ./zoo\n"
+		if s.Work {
+			os.WriteFile(filepath.Join(dir, "go.work"), []byte("go 1.24\n\nuse (\n\t.\n\t./zoo\n)\n"), 0o644)
+		} else {
+			gomod += "\nrequire zoo v0.0.0\n\nreplace zoo => ./zoo\n"
+		}
 		os.MkdirAll(filepath.Join(dir, "zoo", "p"), 0o755)
 		os.MkdirAll(filepath.Join(dir, "zoo", "dep"), 0o755)
 		os.WriteFile(filepath.Join(dir, "zoo", "go.mod"), []byte("module zoo\n\ngo "+zg+"\n"), 0o644)
@@ -838,6 +843,11 @@ func (s *PScn) executeOnce(dir string, sc *script) (res string, errText string) 
 			res = fmt.Sprintf("panic:%v", rv)
 		}
 	}()
+	if s.Work {
+		// workspace mode: the go tool finds go.work by itself
+		os.Setenv("GOWORK", "")
+		defer os.Setenv("GOWORK", "off")
+	}
 	pats := []string{}
 	ents := s.entries()
 	if len(s.Order) == len(ents) && s.Alone == 0 {
